@@ -8,6 +8,34 @@ VERIF = os.path.dirname(os.path.dirname(os.path.abspath(__file__)))
 
 # id -> (category, technique, level text, level note, design ref)
 CHECKS = {
+    "C10": ("model_checking",
+            "TLC (Layout.tla) generates the layout vectors per file specification; each rendering is read by the real front end in-process and TLC (ConfFile.tla) compares the projected result with the abstract specification",
+            "Every uniform layout, every single-gap deviation x 9 trivia kinds and seeded pseudo-random vectors, for random file specifications with tags, explicit numbers, precedence lines, %prec, action bodies with nested braces/comments, alternatives with | and optional ';', tokens spelled like directive words.",
+            "CR is not in the layout alphabet; '%}' is followed by a line break; braces inside action strings are balanced.", "5 C10"),
+    "C11": ("model_checking",
+            "TLC (ConfCodes.tla) checks the numbering rules of TokenCodes.tla on codes recorded in-process and on the constants and translate(c) reported by the BUILT generated programs (go, go -u, go -o, typescript) for all integers in a range",
+            "Random declaration mixes: literals (ASCII and non-ASCII; declared by %token, on precedence lines or only used), named tokens with explicit / automatic numbers, tagged or not, declared only on precedence lines.",
+            "Explicit numbers are kept distinct from each other and from literal codes by the generator (the user's part of the bargain).", "5 C11"),
+    "C13": ("model_checking",
+            "TLC checks liveness of the lexer||parser protocol model (LexParse.tla) for all token-kind sequences up to N and 3 lexer endings; every scenario is concretised and run through the real CLI; plus every prefix and random edits of rendered files through generate go / generate typescript / debug under a deadline",
+            "The verdict comes only from real CLI runs (an expiry is re-run twice alone with a doubled deadline before it counts); the model says where to look and is kept in step with the code (drift report on the real lexer's token kinds).",
+            "Deadline 5 s (10 s on confirmation) where ~5 ms is normal.", "5 C13"),
+    "C14": ("model_checking",
+            "Two-run self-composition over order-sensitive sites (Determinism.tla, model-checked with the code's set of map-ordered sites); ConfDeterminism.tla requires one single output hash per (grammar file, option set) over repeated real CLI runs and repeated in-process generations",
+            "6/12 separate processes + 3 in-process generations per group; grammars with several automatically numbered tokens, several goto targets per state and tie rows.",
+            "The verdict is equality of real output bytes.", "5 C14"),
+    "C15": ("model_checking",
+            "Sessions.tla / Contexts.tla model-checked (independence after init; isolation under every interleaving); their scenario spaces replayed on generated parsers: histories in one process (5 variants, re-used context, shared TypeScript module), two -o contexts under every schedule of token fetches with GetToken as scheduler gate, 8 contexts in parallel under -race; ConfSessions.tla compares each parse with the same parse alone",
+            "Each parse's full event log (tokens fetched, reductions, outcome, value) must equal that of the same parse in a fresh process / alone.",
+            "Schedules above the cap are sampled; the race detector needs cgo (present).", "5 C15"),
+    "C18": ("model_checking",
+            "TLC (ConfListing.tla over Listing.tla) compares the parsed debug listing and the parsed DOT graph of one in-process run with the dense table, item sets and look-aheads of that same run",
+            "Diagram: exactly the table's automaton (nodes with their items, edges = shift/goto cells, reduce annotations = negative cells, filled node = accept state, same numbering). Listing: contains everything the table implements; anything beyond must be the loser of a conflict in that cell.",
+            "The listing is parsed by the harness (format drift makes the check inconclusive, not failing).", "5 C18"),
+    "C19": ("fault_enumeration",
+            "Pipeline.tla models generate as steps over the output file and is model-checked; its scenario space (language x planted input-caused failure) is replayed against the real CLI with a pre-existing output file and ConfPipeline.tla validates exit status / file bytes against the model",
+            "Every failure cause of the model (lexical, syntax, undefined symbol, rule-less nonterminal, unproductive nonterminal, $n out of range, $0) x go (default, -u, -o) and typescript x several base grammars; success scenarios must end with the epilogue.",
+            "Causes are planted by text transformations of well-formed files.", "5 C19"),
     "C16": ("exploration",
             "Every output variant is generated by the real CLI and built by go build / loaded by node 22; ConfBuild.tla states the acceptance rule (generated without error => builds and runs) over the recorded outcomes",
             "Exploration over corpus, random, operator and surface-feature grammars (identifier shapes, all printable ASCII literals except quote and backslash, rule lengths 0..6, tag mixes, with/without union and precedence) x 5 variants; the toolchain is the judge of well-formedness.",
